@@ -281,6 +281,36 @@ class CFG:
         r = self.reachable([src], via, labels_excluded)
         return not any(t in r for t in targets)
 
+    def reachable_flag(self, src: Node, avoiding: Iterable[Node], var: str, labels_excluded=()) -> set[Node]:
+        """Reachability that tracks one boolean local: `var = True/False` constant assignments are
+        remembered and an `if var` / `if not var` test only follows the consistent edge (any other
+        assignment makes the value unknown)."""
+        avoid = set(avoiding)
+        seen = set()
+        todo = deque([(src, None)])
+        while todo:
+            n, val = todo.popleft()
+            if (n, val) in seen:
+                continue
+            seen.add((n, val))
+            st = n.stmt
+            if n.kind == "stmt" and isinstance(st, (ast.Assign, ast.AnnAssign)):
+                tg = st.targets[0] if isinstance(st, ast.Assign) else st.target
+                if isinstance(tg, ast.Name) and tg.id == var:
+                    v = st.value
+                    val = v.value if isinstance(v, ast.Constant) and isinstance(v.value, bool) else None
+            for m, lab in n.succ:
+                if lab in labels_excluded or m in avoid:
+                    continue
+                if n.kind == "test" and val is not None and lab in ("true", "false"):
+                    e = n.exprs[0]
+                    if isinstance(e, ast.Name) and e.id == var and (lab == "true") != val:
+                        continue
+                    if isinstance(e, ast.UnaryOp) and isinstance(e.op, ast.Not) and isinstance(e.operand, ast.Name) and e.operand.id == var and (lab == "true") == val:
+                        continue
+                todo.append((m, val))
+        return {n for n, _ in seen}
+
     def witness(self, src: Node, targets: Iterable[Node], avoiding: Iterable[Node] = (), labels_excluded=()) -> list[Node] | None:
         avoid, tg = set(avoiding), set(targets)
         prev = {src: None}
